@@ -34,3 +34,17 @@ package metautils
 //@   pure
 //@   safe
 //@ end
+
+// C03 (time pruning only skips blocks that cannot hold a matching event): EVERY
+// block of the segment whose time span overlaps the query's range — and that the
+// request covers — is kept, wherever it stands in the block list: blocks are in
+// ARRIVAL order, not event-time order, so a block that lies after the range says
+// nothing about the blocks behind it.
+//@ func FilterBlocksByTime
+//@   props C03
+//@   requires blkTracker != nil && timeRange != nil && timeRange.StartEpochMs <= timeRange.EndEpochMs && len(bSum) <= 65536
+//@   requires forall(k, 0, len(bSum), bSum[k] != nil && bSum[k].LowTs <= bSum[k].HighTs)
+//@   ensures [every-overlapping-block-the-request-covers-is-kept] forall(k, 0, len(bSum), implies((blkTracker.entireFile || !haskey(blkTracker.excludeBlocks, uint16(k))) && bSum[k].LowTs <= timeRange.EndEpochMs && bSum[k].HighTs >= timeRange.StartEpochMs, haskey(result, uint16(k))))
+//@   loop 1:
+//@     invariant rangeindex + 1 <= len(bSum) && forall(k, 0, rangeindex + 1, implies((blkTracker.entireFile || !haskey(blkTracker.excludeBlocks, uint16(k))) && bSum[k].LowTs <= timeRange.EndEpochMs && bSum[k].HighTs >= timeRange.StartEpochMs, haskey(timeFilteredBlocks, uint16(k))))
+//@ end
